@@ -681,7 +681,77 @@ func TestC08(t *testing.T) {
 		}
 	}
 
+	addC08Janitor(e, cf)
+
 	if err := cf.Write(e); err != nil {
 		t.Fatal(err)
+	}
+}
+
+// addC08Janitor races janitor cycles against the rewriting of long-expired keys on the real clock:
+// every completed Write of a fresh value is followed by a Read, which must find it whatever the
+// concurrent cleanup does (cleanup acts at one instant per key and a fresh entry is not expired).
+func addC08Janitor(e *Env, cf *CaseFile) {
+	budget := time.Duration(e.Pick(1500, 15000)) * time.Millisecond
+	keys := [][]byte{[]byte("a"), []byte("b"), []byte("c"), []byte("d")}
+
+	for _, fl := range Flavours {
+		b := NewBackend(fl, cache.Config{
+			Name: "c08j", TimeToLive: time.Hour, ExpirationJitter: -1, DeleteExpiredAfter: time.Hour,
+			DeleteExpiredJobInterval: 1000000 * time.Hour, ItemsCountReportInterval: 1000000 * time.Hour,
+		})
+		ctx := context.Background()
+		old := cache.WithTTL(ctx, -2*time.Hour, false)
+
+		var stop atomic.Bool
+
+		done := make(chan struct{})
+
+		go func() {
+			for !stop.Load() {
+				b.Cleanup()
+			}
+
+			close(done)
+		}()
+
+		lost, n := 0, 0
+		lostKey := 0
+		deadline := time.Now().Add(budget)
+
+		for time.Now().Before(deadline) {
+			for _, k := range keys {
+				_ = b.Write(old, k, 1)
+			}
+
+			for i, k := range keys {
+				_ = b.Write(ctx, k, 2)
+				n++
+
+				if r := b.Read(ctx, k); r.Kind != "val" || r.V != 2 {
+					lost++
+					lostKey = i
+				}
+			}
+		}
+
+		stop.Store(true)
+		<-done
+		b.Close()
+
+		// the three-operation history of one round on one key, times symbolic: cleanup [0,5] with boundary -1h,
+		// Write(k, 2, expiry +1h) [1,2], Read(k) [3,4]
+		res := "XHit 2"
+		if lost > 0 {
+			res = "XNotFound"
+		}
+
+		k := Key(keys[lostKey])
+		term := fmt.Sprintf("(mkC08 %s [mkOp8 1 2 (SWrite %s 2 3600000000000) XUnit; mkOp8 3 4 (SRead %s 0) (%s); mkOp8 0 5 (SDelExp (-3600000000000)) XUnit])",
+			Bool(lost == 0), k, k, res)
+		cf.Add(term, "janitor/"+fl, map[string]any{"flavour": fl, "rounds": n, "lost": lost,
+			"how": "one goroutine runs VerifCleanup back to back; another writes 4 keys with ttl -2h, then for each key writes a fresh value and reads it"},
+			true)
+		cf.Count("janitor-rounds", n)
 	}
 }
